@@ -18,7 +18,7 @@ TRANSPORTS = [None, 'polling', 'websocket', 'bogus']
 SIDKINDS = ['absent', 'live_polling', 'live_upgraded', 'mid_upgrade', 'closed', 'unknown', 'rejected', 'closing']
 HDRS = ['none', 'both', 'upgrade_only', 'connection_only', 'other_protocol']
 JS = [None, '0', '5', 'x', '']
-CFGS = ['both', 'polling', 'websocket']
+CFGS = ['both', 'polling', 'websocket', 'no_upgrades']     # no_upgrades: both transports, allow_upgrades=False (governs the advertisement only)
 
 
 class RejectOnHeader(base.Behaviour):
@@ -36,6 +36,8 @@ class RejectOnHeader(base.Behaviour):
 
 def prepare(impl, cfg):
     kw = {}
+    if cfg == 'no_upgrades':
+        kw['allow_upgrades'] = False
     if cfg == 'polling':
         kw['transports'] = ['polling']
     elif cfg == 'websocket':
@@ -56,7 +58,7 @@ def prepare(impl, cfg):
         esid = peer.sid_of(peer.open_polling(w))
         sids['live_polling'] = peer.sid_of(peer.open_polling(w))
         w.call('send', sids['live_polling'], 'queued-a')
-        if cfg == 'both':
+        if cfg in ('both', 'no_upgrades'):
             sids['live_upgraded'] = peer.sid_of(peer.open_polling(w))
             keep['up'] = peer.do_upgrade(w, sids['live_upgraded'])
             sids['mid_upgrade'] = peer.sid_of(peer.open_polling(w))
@@ -94,7 +96,7 @@ def snapshot(w):
 
 def reference(method, eio, transport, sidkind, hdr, j, cfg):
     """-> (verdict, allowed_statuses) verdict in admit/refuse/open/any."""
-    allowed = {'both': ['polling', 'websocket'], 'polling': ['polling'], 'websocket': ['websocket']}[cfg]
+    allowed = {'both': ['polling', 'websocket'], 'no_upgrades': ['polling', 'websocket'], 'polling': ['polling'], 'websocket': ['websocket']}[cfg]
     defects = set()
     if method not in ('GET', 'POST', 'OPTIONS'):
         defects.add('method')
